@@ -1,6 +1,6 @@
 //! C17 under Miri: the same history interpreter as `exec_mem` (mem.buf / mem.val), without the
 //! counting allocator (Miri itself is the checker).  Histories are command-line arguments, one per
-//! argument: `buf;tok;tok;…` or `val;tok;tok;…`.  No file or environment access (Miri isolation).
+//! argument: `buf;tok;tok;…`, `val;tok;tok;…` or `arith;<op>;<form>;<a>;<b>`.  No file or environment access (Miri isolation).
 #[path = "../ops_mem.rs"]
 mod ops_mem;
 
@@ -13,6 +13,7 @@ fn main() {
         let r = match kind {
             "buf" => ops_mem::buf_history(&toks),
             "val" => ops_mem::val_history(&toks),
+            "arith" => ops_mem::arith_case(&toks),
             _ => Err(format!("bad-kind {}", kind)),
         };
         match r {
